@@ -175,6 +175,122 @@ example :
      s2.reg .rsp = 0x7000 ∧ s2.pc = some 0x401000 ∧ s2.reg .rcx = 0xA1A1) :=
   ⟨trashEnv_abi 64, by unfold CtxOutsideFrame; decide, by decide, by decide, by decide, by decide⟩
 
+/-! ### round trips through a whole resuming routine
+
+`switch_fcontext` and `switch_with_call_fcontext` first save the *resumer's* context (on the
+resumer's stack, into the resumer's context word) and then restore the target.  The theorems
+above start at the restore half; the ones below start at the routine's entry and add what
+C15 provides: the resumer's own frame and context word are disjoint from the target's. -/
+
+/-- byte ranges `[a, a+n)` and `[b, b+m)` do not overlap -/
+def Disjoint (a n b m : Int) : Prop := a + n ≤ b ∨ b + m ≤ a
+
+/-- as `RoundTrip`, but `s1` is the state at the ENTRY of the whole resuming routine
+`resumer` (a different thread, `rsp = s1.rsp`, its own old-context pointer in `rold`) -/
+def RoundTripWhole (save : List Instr) (old : Reg) (resumer : List Instr) (new rold : Reg) : Prop :=
+  ∀ (env : Env) (s0 s1 : St), AbiEnv env 64 →
+    CtxOutsideFrame (s0.reg old) (s0.reg .rsp) →
+    s1.reg new = s0.reg old →
+    s1.mem (s0.reg old) = (run env s0 save).mem (s0.reg old) →
+    Agree s1 (run env s0 save) (s0.reg .rsp - 56) (s0.reg .rsp + 8) →
+    Disjoint (s1.reg .rsp - 56) 56 (s0.reg .rsp - 56) 64 →     -- the two threads' frames
+    Disjoint (s1.reg .rsp - 56) 56 (s0.reg old) 8 →            -- resumer's frame / target's context word
+    Disjoint (s1.reg rold) 8 (s0.reg .rsp - 56) 64 →           -- resumer's context word / target's frame
+    Disjoint (s1.reg rold) 8 (s0.reg old) 8 →                  -- the two context words
+    Resumed (run env s1 resumer) s0
+
+/-- what `fctx_saved_sp_aligned_*` establish about a save half, as a predicate -/
+def SaveFootprint (sv : List Instr) (rold : Reg) : Prop :=
+  ∀ (env : Env) (s : St),
+    (∀ r, r ≠ .rsp → (run env s sv).reg r = s.reg r) ∧
+    OnlyFrameWritten s.mem (run env s sv).mem s.mem32 (run env s sv).mem32 s.mem16 (run env s sv).mem16
+      (s.reg .rsp) (s.reg rold)
+
+/-- composition: a restore-half round trip extends over any save half with that footprint -/
+theorem roundtrip_whole_of_halves {S Rs Rr : List Instr} {old new rold : Reg}
+    (hrt : RoundTrip S old Rr new) (hfp : SaveFootprint Rs rold) (hne : new ≠ .rsp) :
+    RoundTripWhole S old (Rs ++ Rr) new rold := by
+  intro env s0 s1 habi hfar hnew hctx hk hd1 hd2 hd3 hd4
+  rw [run_append]
+  obtain ⟨hregs, hofw⟩ := hfp env s1
+  unfold Disjoint at hd1 hd2 hd3 hd4
+  unfold OnlyFrameWritten at hofw
+  apply hrt env s0 (run env s1 Rs) habi hfar
+  · rw [hregs new hne]; exact hnew
+  · have h := hofw (s0.reg old) (by omega)
+    rw [h.1 (by omega)]; exact hctx
+  · intro x h1 h2
+    have h := hofw x (by omega)
+    have hk := hk x h1 h2
+    refine ⟨?_, ?_, ?_⟩
+    · rw [h.1 (by omega)]; exact hk.1
+    · rw [h.2.1]; exact hk.2.1
+    · rw [h.2.2]; exact hk.2.2
+
+theorem fctx_footprint_switch : SaveFootprint switch_fcontext_save .rsi := by
+  intro env s
+  refine ⟨?_, ?_⟩
+  · intro r hr; fctx_unfold <;> grind
+  · unfold OnlyFrameWritten; intro a ha; fctx_unfold <;> grind
+
+theorem fctx_footprint_switch_with_call : SaveFootprint switch_with_call_fcontext_save .rcx := by
+  intro env s
+  refine ⟨?_, ?_⟩
+  · intro r hr; fctx_unfold <;> grind
+  · unfold OnlyFrameWritten; intro a ha; fctx_unfold <;> grind
+
+/-- a context saved by `switch_fcontext` is restored by a complete `switch_fcontext` call of
+another thread -/
+theorem fctx_roundtrip_whole_switch_switch :
+    RoundTripWhole switch_fcontext_save .rsi switch_fcontext .rdi .rsi := by
+  rw [fctx_split.1]
+  exact roundtrip_whole_of_halves fctx_roundtrip_switch_switch fctx_footprint_switch (by decide)
+theorem fctx_roundtrip_whole_switch_switch_with_call :
+    RoundTripWhole switch_fcontext_save .rsi switch_with_call_fcontext .rdx .rcx := by
+  rw [fctx_split.2.1]
+  exact roundtrip_whole_of_halves fctx_roundtrip_switch_switch_with_call fctx_footprint_switch_with_call (by decide)
+theorem fctx_roundtrip_whole_switch_with_call_switch :
+    RoundTripWhole switch_with_call_fcontext_save .rcx switch_fcontext .rdi .rsi := by
+  rw [fctx_split.1]
+  exact roundtrip_whole_of_halves fctx_roundtrip_switch_with_call_switch fctx_footprint_switch (by decide)
+theorem fctx_roundtrip_whole_switch_with_call_switch_with_call :
+    RoundTripWhole switch_with_call_fcontext_save .rcx switch_with_call_fcontext .rdx .rcx := by
+  rw [fctx_split.2.1]
+  exact roundtrip_whole_of_halves fctx_roundtrip_switch_with_call_switch_with_call
+    fctx_footprint_switch_with_call (by decide)
+theorem fctx_roundtrip_whole_init_and_switch_switch :
+    RoundTripWhole init_and_switch_fcontext_save .rcx switch_fcontext .rdi .rsi := by
+  rw [fctx_split.1]
+  exact roundtrip_whole_of_halves fctx_roundtrip_init_and_switch_switch fctx_footprint_switch (by decide)
+theorem fctx_roundtrip_whole_init_and_switch_switch_with_call :
+    RoundTripWhole init_and_switch_fcontext_save .rcx switch_with_call_fcontext .rdx .rcx := by
+  rw [fctx_split.2.1]
+  exact roundtrip_whole_of_halves fctx_roundtrip_init_and_switch_switch_with_call
+    fctx_footprint_switch_with_call (by decide)
+theorem fctx_roundtrip_whole_init_and_switch_with_call_switch :
+    RoundTripWhole init_and_switch_with_call_fcontext_save .r9 switch_fcontext .rdi .rsi := by
+  rw [fctx_split.1]
+  exact roundtrip_whole_of_halves fctx_roundtrip_init_and_switch_with_call_switch fctx_footprint_switch (by decide)
+theorem fctx_roundtrip_whole_init_and_switch_with_call_switch_with_call :
+    RoundTripWhole init_and_switch_with_call_fcontext_save .r9 switch_with_call_fcontext .rdx .rcx := by
+  rw [fctx_split.2.1]
+  exact roundtrip_whole_of_halves fctx_roundtrip_init_and_switch_with_call_switch_with_call
+    fctx_footprint_switch_with_call (by decide)
+
+/-- non-vacuity of `RoundTripWhole`: a resumer entering `switch_fcontext` at `rsp = 0x3000` with
+its own context word at `0x9010` satisfies all four disjointness hypotheses w.r.t. `exSt0`'s
+frame `[0x6FC0, 0x7000)` and context word `0x9000`, and the whole routine brings `exSt0` back -/
+example :
+    let s1 : St := { exSt1 switch_fcontext_save with
+      reg := fun r => if r = .rsi then 0x9010 else (exSt1 switch_fcontext_save).reg r }
+    Disjoint (s1.reg .rsp - 56) 56 (exSt0.reg .rsp - 56) 64 ∧ Disjoint (s1.reg .rsp - 56) 56 (exSt0.reg .rsi) 8 ∧
+    Disjoint (s1.reg .rsi) 8 (exSt0.reg .rsp - 56) 64 ∧ Disjoint (s1.reg .rsi) 8 (exSt0.reg .rsi) 8 ∧
+    (run trashEnv s1 switch_fcontext).reg .r13 = 0xC13 ∧ (run trashEnv s1 switch_fcontext).mxcsr = 0xFF80 ∧
+    (run trashEnv s1 switch_fcontext).pc = some 0x401000 ∧
+    (run trashEnv s1 switch_fcontext).mem 0x9010 = 0x3000 - 56 := by
+  refine ⟨by unfold Disjoint; decide, by unfold Disjoint; decide, by unfold Disjoint; decide,
+    by unfold Disjoint; decide, by decide, by decide, by decide, by decide⟩
+
 /-! ### the context is saved before the callback runs -/
 
 /-- `switch_with_call_fcontext(cb_arg, f_cb, p_new, p_old)`: exactly one external call is made;
@@ -224,22 +340,23 @@ example :
 
 macro "fctx_save_facts" : tactic => `(tactic| (
   dsimp only
-  refine ⟨?_, ?_, ?_, ?_⟩
+  refine ⟨?_, ?_, ?_, ?_, ?_⟩
   · fctx_unfold <;> grind
   · intro h; fctx_unfold <;> grind
   · fctx_unfold <;> grind
+  · intro r hr; fctx_unfold <;> grind
   · unfold OnlyFrameWritten; intro a ha; fctx_unfold <;> grind))
 
 /-- The save half of `switch_fcontext` stores `rsp - 56` into `*p_old`; if the routine was
 entered from an ABI-conformant call site (`(rsp + 8) % 16 = 0`) that value is 16-byte
 aligned, so a callback later run on this context (`*_with_call`, `peek`) gets an aligned
-stack; `rsp` ends at the frame base; and nothing outside `[rsp-56, rsp)` and `*p_old` is
-written — in particular the caller's stack contents at and above `rsp` are untouched. -/
+stack; `rsp` ends at the frame base, no other register changes; and nothing outside
+`[rsp-56, rsp)` and `*p_old` is written — in particular the caller's stack contents at and above `rsp` are untouched. -/
 theorem fctx_saved_sp_aligned_switch (env : Env) (s0 : St) :
     let s1 := run env s0 switch_fcontext_save
     s1.mem (s0.reg .rsi) = s0.reg .rsp - 56 ∧
     ((s0.reg .rsp + 8) % 16 = 0 → s1.mem (s0.reg .rsi) % 16 = 0) ∧
-    s1.reg .rsp = s0.reg .rsp - 56 ∧
+    s1.reg .rsp = s0.reg .rsp - 56 ∧ (∀ r, r ≠ .rsp → s1.reg r = s0.reg r) ∧
     OnlyFrameWritten s0.mem s1.mem s0.mem32 s1.mem32 s0.mem16 s1.mem16 (s0.reg .rsp) (s0.reg .rsi) := by
   fctx_save_facts
 
@@ -247,7 +364,7 @@ theorem fctx_saved_sp_aligned_switch_with_call (env : Env) (s0 : St) :
     let s1 := run env s0 switch_with_call_fcontext_save
     s1.mem (s0.reg .rcx) = s0.reg .rsp - 56 ∧
     ((s0.reg .rsp + 8) % 16 = 0 → s1.mem (s0.reg .rcx) % 16 = 0) ∧
-    s1.reg .rsp = s0.reg .rsp - 56 ∧
+    s1.reg .rsp = s0.reg .rsp - 56 ∧ (∀ r, r ≠ .rsp → s1.reg r = s0.reg r) ∧
     OnlyFrameWritten s0.mem s1.mem s0.mem32 s1.mem32 s0.mem16 s1.mem16 (s0.reg .rsp) (s0.reg .rcx) := by
   fctx_save_facts
 
@@ -255,7 +372,7 @@ theorem fctx_saved_sp_aligned_init_and_switch (env : Env) (s0 : St) :
     let s1 := run env s0 init_and_switch_fcontext_save
     s1.mem (s0.reg .rcx) = s0.reg .rsp - 56 ∧
     ((s0.reg .rsp + 8) % 16 = 0 → s1.mem (s0.reg .rcx) % 16 = 0) ∧
-    s1.reg .rsp = s0.reg .rsp - 56 ∧
+    s1.reg .rsp = s0.reg .rsp - 56 ∧ (∀ r, r ≠ .rsp → s1.reg r = s0.reg r) ∧
     OnlyFrameWritten s0.mem s1.mem s0.mem32 s1.mem32 s0.mem16 s1.mem16 (s0.reg .rsp) (s0.reg .rcx) := by
   fctx_save_facts
 
@@ -263,7 +380,7 @@ theorem fctx_saved_sp_aligned_init_and_switch_with_call (env : Env) (s0 : St) :
     let s1 := run env s0 init_and_switch_with_call_fcontext_save
     s1.mem (s0.reg .r9) = s0.reg .rsp - 56 ∧
     ((s0.reg .rsp + 8) % 16 = 0 → s1.mem (s0.reg .r9) % 16 = 0) ∧
-    s1.reg .rsp = s0.reg .rsp - 56 ∧
+    s1.reg .rsp = s0.reg .rsp - 56 ∧ (∀ r, r ≠ .rsp → s1.reg r = s0.reg r) ∧
     OnlyFrameWritten s0.mem s1.mem s0.mem32 s1.mem32 s0.mem16 s1.mem16 (s0.reg .rsp) (s0.reg .r9) := by
   fctx_save_facts
 
@@ -284,6 +401,17 @@ theorem fctx_call_on_saved_sp (env : Env) (s : St) (habi : AbiEnv env 64) (hc : 
   have := habi.calls
   fctx_unfold
   simp only [OneCall, *, and_self]
+
+/-- The restore halves without a callback write no memory at all (the resumed ULT's stack
+contents are exactly what they were when the restore began); in the `_with_call` variants the
+only writes are the callback's return address and the callback's own (`fctx_call_on_saved_sp`:
+memory at the `callq` is the memory at entry). -/
+theorem fctx_restore_writes_nothing (env : Env) (s : St) :
+    (run env s switch_fcontext_restore).mem = s.mem ∧ (run env s switch_fcontext_restore).mem32 = s.mem32 ∧
+    (run env s switch_fcontext_restore).mem16 = s.mem16 ∧
+    (run env s jump_fcontext).mem = s.mem ∧ (run env s jump_fcontext).mem32 = s.mem32 ∧
+    (run env s jump_fcontext).mem16 = s.mem16 := by
+  refine ⟨?_, ?_, ?_, ?_, ?_, ?_⟩ <;> fctx_unfold <;> rfl
 
 /-! ### a fresh ULT starts on an ABI-aligned stack below `p_stacktop` -/
 
